@@ -235,6 +235,7 @@ impl Memory {
         match p {
             Pointer::Local(p) => {
                 let frame = &self.stack[p.stack_index];
+                assert_eq!(frame.id, p.stack_id);
                 frame.get(p)
             }
             Pointer::Global(p) => p.ptr,
